@@ -622,7 +622,10 @@ fn explore_order_cull(scene: &Scene, r: &mut Report, scene_id: u64, discard: Dis
     // second clause: depth test off + back-to-front sort == depth-buffered image when depth ranges are disjoint
     // depth range of each triangle's visible part (triangles of which nothing is visible constrain nothing)
     let zr: Vec<Option<(f64, f64)>> = scene.tris.iter().map(|t| visible_screen_polygon(&t.v, scene.vp).map(|x| x.1)).collect();
-    let disjoint = (0..n).all(|i| (0..n).all(|j| i == j || match (zr[i], zr[j]) { (Some(a), Some(b)) => a.1 < b.0 * 0.9999 || b.1 < a.0 * 0.9999, _ => true }));
+    let disjoint = (0..n).all(|i| (0..n).all(|j| i == j || match (zr[i], zr[j]) { (Some(a), Some(b)) => {
+        // (layers of constant depth are disjoint as soon as their depths differ - by an ulp, if that is all; ranges of tilted
+        // triangles, which the sort key only summarises, must be clear of each other by 1e-4)
+        if a.0 == a.1 && b.0 == b.1 { a.1 != b.0 } else { a.1 < b.0 * 0.9999 || b.1 < a.0 * 0.9999 } }, _ => true }));
     if disjoint {
         r.eval();
         let ctx = Context { depth_test: None, depth_sort: Some(DepthSort::BackToFront), ..ctx_plain() };
@@ -639,6 +642,61 @@ fn explore_order_cull(scene: &Scene, r: &mut Report, scene_id: u64, discard: Dis
         }
     }
     r.nontrivial += (overlap > 0) as u64;
+}
+
+/// A depth-only pass (colour writes off) followed by a colour pass is the two-pass way of getting "each pixel ends with the
+/// nearest fragment covering it": the depth buffer a depth-only pass leaves - under every depth-sort setting, with and without
+/// a discarding shader - is the one the ordinary pass leaves, the colour buffer is untouched, and a colour pass over it with
+/// the test `Equal` then paints exactly the image of the ordinary pass.
+fn check_depth_prepass(scene: &Scene, scene_id: u64, r: &mut Report) {
+    let px = (scene.bw * scene.bh) as usize;
+    for discard in [Discard::Never, Discard::Parity] { for (si, sort) in [None, Some(DepthSort::FrontToBack), Some(DepthSort::BackToFront)].into_iter().enumerate() {
+        r.eval();
+        let case = || obj! {"kind" => "prepass", "scene" => scene_json(scene), "id" => scene_id};
+        let tag = format!("{discard:?}|sort{si}|scene{scene_id}|{}", short(scene));
+        let plain = Context { depth_sort: sort, ..ctx_plain() };
+        let pre = Context { color_write: false, ..plain.clone() };
+        let (a, b) = match (render_scene(scene, None, Door::Render, TargetKind::Owned, &pre, discard, None), render_scene(scene, None, Door::Render, TargetKind::Owned, &plain, discard, None)) { (Ok(a), Ok(b)) => (a, b), _ => { r.violation(format!("render-panic|prepass|{tag}"), "render panicked".into(), case()); return; } };
+        if let Some(p) = (0..px).find(|&p| a.color[p] != color_sentinel(p)) { r.violation(format!("order-dependence|prepass-colour|{tag}"), format!("depth-only pass (colour writes off) modified the colour of pixel {p}"), case()); return; }
+        let (ad, bd) = (a.depth.as_ref().unwrap(), b.depth.as_ref().unwrap());
+        if let Some(p) = (0..px).find(|&p| ad[p].to_bits() != bd[p].to_bits()) { r.violation(format!("order-dependence|prepass-depth|{tag}"), format!("after a depth-only pass (colour writes off) pixel {p} holds depth {:e}, after the ordinary pass {:e}: it is not the nearest fragment covering the pixel", ad[p], bd[p]), case()); return; }
+        // colour pass over the pre-pass depth: test Equal, depth writes off
+        let eq = Context { depth_test: Some(Ordering::Equal), depth_write: false, depth_sort: sort, ..ctx_plain() };
+        if let Ok(c) = render_scene(scene, None, Door::Render, TargetKind::Owned, &eq, discard, Some((&a.color, ad))) {
+            // (exact depth ties between different triangles make the Equal pass paint the last of them: exempt pixels whose
+            // colour differs only for that reason - those where two triangles store the same depth)
+            if let Some(p) = (0..px).find(|&p| c.color[p] != b.color[p] && !(0..scene.tris.len()).filter(|&k| render_scene(scene, Some(&[k]), Door::Render, TargetKind::Owned, &plain, discard, None).map_or(false, |o| o.depth.unwrap()[p].to_bits() == bd[p].to_bits() && o.color[p] != color_sentinel(p))).nth(1).is_some()) {
+                r.violation(format!("order-dependence|prepass-colour-pass|{tag}"), format!("depth-only pass, then a colour pass with the test Equal: pixel {p} holds {:#x}, the ordinary pass gives {:#x}", c.color[p], b.color[p]), case()); return;
+            }
+        }
+        r.nontrivial();
+    }}
+}
+
+/// The first clause under the library's orthographic projection: overlapping triangles at different view depths, projected with
+/// orthographic(), in both submission orders - each pixel of the overlap ends with the nearer one.
+fn check_ortho_depth(i: u64, r: &mut Report) {
+    r.eval();
+    let m = orthographic(pt3(-1.0, -1.0, 1.0), pt3(1.0, 1.0, 10.0));
+    let depths = [(2.0f32, 5.0f32), (1.5, 9.0), (3.0, 3.5), (5.0, 2.0)][(i % 4) as usize];
+    let foot = [[[-0.9f32, -0.9], [0.9, -0.8], [-0.1, 0.9]], [[-0.7, 0.8], [0.8, 0.7], [0.0, -0.9]], [[-0.9, -0.2], [0.9, -0.3], [0.9, 0.6]]];
+    let (fa, fb) = (foot[(i / 4 % 3) as usize], foot[((i / 4 + 1) % 3) as usize]);
+    let mk = |xy: [[f32; 2]; 3], z: f32, a: f32| STri { v: std::array::from_fn(|k| m.apply(&pt3(xy[k][0], xy[k][1], z)).0), a: [a, a + 0.01, a + 0.02] };
+    let sc = Scene { tris: vec![mk(fa, depths.0, 0.2), mk(fb, depths.1, 0.7)], bw: 8, bh: 8, vp: (0, 0, 8, 8) };
+    let case = || obj! {"kind" => "ortho-depth", "i" => i};
+    let tag = format!("view depths {} and {}|footprints {}", depths.0, depths.1, i / 4 % 3);
+    let run = |o: &[usize]| render_scene(&sc, Some(o), Door::Render, TargetKind::Owned, &ctx_plain(), Discard::Never, None);
+    let (Ok(ab), Ok(ba), Ok(a), Ok(b)) = (run(&[0, 1]), run(&[1, 0]), run(&[0]), run(&[1])) else { r.violation(format!("render-panic|orthographic|{tag}"), "render panicked".into(), case()); return; };
+    let near = if depths.0 < depths.1 { &a } else { &b };
+    let both: Vec<usize> = (0..64).filter(|&p| a.color[p] != color_sentinel(p) && b.color[p] != color_sentinel(p)).collect();
+    if both.is_empty() { r.h("ortho-depth:no-overlap"); return; }
+    let wrong = |o: &Rendered| both.iter().filter(|&&p| o.color[p] != near.color[p]).count();
+    let (w1, w2) = (wrong(&ab), wrong(&ba));
+    if w1 + w2 > 0 || ab.color != ba.color {
+        r.violation(format!("order-dependence|orthographic|{tag}"), format!("two overlapping triangles at view depths {} and {} under orthographic(): of the {} pixels both cover, {} (submitted near-first: {}) do not show the nearer one; the two submission orders differ in {} pixels", depths.0, depths.1, both.len(), w2.max(w1), if depths.0 < depths.1 { w1 } else { w2 }, (0..64).filter(|&p| ab.color[p] != ba.color[p]).count()), case());
+        return;
+    }
+    r.nontrivial();
 }
 
 fn order_pool() -> Vec<STri> {
@@ -795,12 +853,15 @@ fn run_order(cfg: &Cfg) -> ! {
         explore_order(&sc, r, i, Discard::Never);
         // a checkerboard-discarding fragment shader: discarded fragments must leave colour AND depth alone in every history
         if scenes[i as usize].len() <= 3 { explore_order(&sc, r, i, Discard::Parity); }
+        // a depth-only pass leaves the depth buffer of the ordinary pass
+        if scenes[i as usize].len() <= 3 { check_depth_prepass(&sc, i, r); }
         // ... and with back-face / front-face culling on (the pool has members of both windings)
         if scenes[i as usize].len() <= 3 { explore_order_cull(&sc, r, i, Discard::Never, Some(FaceCull::Back)); if i % 2 == 0 { explore_order_cull(&sc, r, i, Discard::Never, Some(FaceCull::Front)); } }
         r.sample(i, || obj! {"scene_triangles" => scenes[i as usize].clone(), "example_history" => "render([2,0], FrontToBack) ; render([1], None)"});
     });
     rep.merge(par_range(cfg, (np * np) as u64, |i, r| { let (a, b) = ((i as usize) % np, (i as usize) / np); if a != b { check_masked_occluder(&pool[a], &pool[b], (a, b), r); } }));
     rep.merge(par_range(cfg, 640, check_order_ulp));
+    rep.merge(par_range(cfg, 12, check_ortho_depth));
     rep.merge(par_range(cfg, 5, |i, r| check_painter_scale([300usize, 1024, 1025, 2100, 3001][i as usize], r)));
     {
         let fp = far_pool();
@@ -1247,6 +1308,8 @@ fn main() {
                 "order" | "painter" => explore_order(&scene_from(c.get("scene").unwrap()), r, 0, if c.get("discard").and_then(|j| j.as_str()) == Some("Parity") { Discard::Parity } else { Discard::Never }),
                 "config" => check_config_door(&scene_from(c.get("scene").unwrap()), c.get("flags").unwrap().as_u64().unwrap() as u32, match c.get("discard").and_then(|j| j.as_str()).unwrap_or("") { "Always" => Discard::Always, "Parity" => Discard::Parity, _ => Discard::Never }, kind(c), match c.get("door").and_then(|j| j.as_str()).unwrap_or("") { "Batch" => Door::Batch, "Camera" => Door::Camera, _ => Door::Render }, r),
                 "depth-pred" => check_depth_predicate(&scene_from(c.get("scene").unwrap()), kind(c), match c.get("door").and_then(|j| j.as_str()).unwrap_or("") { "Batch" => Door::Batch, "Camera" => Door::Camera, _ => Door::Render }, c.get("shift").and_then(|j| j.as_u64()).unwrap_or(0) as usize, r),
+                "prepass" => check_depth_prepass(&scene_from(c.get("scene").unwrap()), c.get("id").and_then(|j| j.as_u64()).unwrap_or(0), r),
+                "ortho-depth" => check_ortho_depth(c.get("i").unwrap().as_u64().unwrap(), r),
                 "accum" => { let pool = order_pool(); check_accumulation(&scene_from(c.get("scene").unwrap()), 0, &pool[10], r) }
                 "solid" => check_solid_culling(c.get("solid").unwrap().as_u64().unwrap() as usize, c.get("view").unwrap().as_u64().unwrap() as usize, r),
                 "cull" => { let s = scene_from(c.get("scene").unwrap()); check_cull(&s.tris[0], s.bw, s.bh, s.vp, kind(c), r) }
